@@ -6,6 +6,7 @@ PROVED.
 -/
 import Rrtk.Thm.C04
 import Rrtk.Thm.Lemmas.SoftScalar
+import Rrtk.Thm.Lemmas.C04More
 set_option linter.unusedSectionVars false
 set_option linter.unusedSimpArgs false
 namespace Rrtk.Thm.C04
